@@ -14,6 +14,7 @@ use pmh_verif::sketchers::*;
 use pmh_verif::util::*;
 use probminhash::densminhash::{OptDensMinHash, RevOptDensMinHash};
 use probminhash::probminhasher::probordminhash2::ProbOrdMinHash2;
+use probminhash::probminhasher::{ProbMinHash2, ProbMinHash3, ProbMinHash3a};
 use rand::Rng;
 use serde_json::{json, Value};
 use std::collections::HashMap;
@@ -261,6 +262,60 @@ impl Runner for Ord2 {
     }
 }
 
+/// ProbMinHash over identifiers that are not plain integers: references to owned strings (every run allocates its own
+/// strings, so equal inputs live at different addresses in every instance, thread and process) and small structs with
+/// padding.  The signature is reported by value.
+struct RefKeys(&'static str);
+impl Runner for RefKeys {
+    fn run(&mut self, k: &Key, its: &[Item]) -> (Vec<u64>, Option<u64>) {
+        let mut bits = vec![0u64];
+        if self.0 == "pmh3_pair" {
+            let key = |id: u64| -> (u8, u32) { ((id >> 40) as u8, id as u32) };
+            let mut s = ProbMinHash3::<(u8, u32), FnvHasher>::new(k.m, (0xff, u32::MAX));
+            for i in its {
+                s.hash_item(key(i.id), &i.w);
+            }
+            bits.extend(s.get_signature().iter().map(|p| ((p.0 as u64) << 40) | p.1 as u64));
+            return (bits, None);
+        }
+        let names: Vec<String> = its.iter().map(|i| format!("k{:x}", i.id)).collect();
+        let init = String::from("none");
+        let back = |s: &String| -> u64 {
+            if *s == init {
+                u64::MAX
+            } else {
+                u64::from_str_radix(&s[1..], 16).unwrap_or(u64::MAX - 1)
+            }
+        };
+        match self.0 {
+            "pmh2_refstr" => {
+                let mut s = ProbMinHash2::<&String, FnvHasher>::new(k.m, &init);
+                for (n, i) in names.iter().zip(its.iter()) {
+                    s.hash_item(n, i.w);
+                }
+                bits.extend(s.get_signature().iter().map(|x| back(x)));
+            }
+            "pmh3_refstr" => {
+                let mut s = ProbMinHash3::<&String, FnvHasher>::new(k.m, &init);
+                for (n, i) in names.iter().zip(its.iter()) {
+                    s.hash_item(n, &i.w);
+                }
+                bits.extend(s.get_signature().iter().map(|x| back(x)));
+            }
+            _ => {
+                let mut mp: indexmap::IndexMap<&String, f64, fnv::FnvBuildHasher> = indexmap::IndexMap::default();
+                for (n, i) in names.iter().zip(its.iter()) {
+                    mp.insert(n, i.w);
+                }
+                let mut s = ProbMinHash3a::<&String, FnvHasher>::new(k.m, &init);
+                s.hash_weigthed_idxmap(&mp);
+                bits.extend(s.get_signature().iter().map(|x| back(x)));
+            }
+        }
+        (bits, None)
+    }
+}
+
 fn build(k: &Key) -> Box<dyn Runner> {
     let bh = BuildHasherDefault::<FnvHasher>::default;
     let map = k.entry == "hashmap";
@@ -270,6 +325,10 @@ fn build(k: &Key) -> Box<dyn Runner> {
         "rev_f32_fnv" => Box::new(RevF32(RevOptDensMinHash::new(k.m, bh()))),
         "rev_f64_fnv" => Box::new(RevF64(RevOptDensMinHash::new(k.m, bh()))),
         "ord2_fnv" => Box::new(Ord2(ProbOrdMinHash2::new(k.m as u32, k.l))),
+        "pmh2_refstr" => Box::new(RefKeys("pmh2_refstr")),
+        "pmh3_refstr" => Box::new(RefKeys("pmh3_refstr")),
+        "pmh3a_refstr" => Box::new(RefKeys("pmh3a_refstr")),
+        "pmh3_pair" => Box::new(RefKeys("pmh3_pair")),
         "pmh2" if map => Box::new(Map2(Pmh2::new(k.m))),
         "pmh3" if map => Box::new(Map3(Pmh3::new(k.m))),
         "pmh3a" if map => Box::new(Map3a(Pmh3a::new(k.m))),
@@ -395,7 +454,9 @@ fn child(a: &Args) {
     // (a') two live instances of the same kind fed ALTERNATELY, item by item, in one thread (entry "item" through the adapters):
     // each must still give the sketch of its own input (instances share nothing)
     for (ki, k) in keys.iter().enumerate() {
-        if k.entry != "item" || k.kind.starts_with("dens") || k.kind.starts_with("rev") || k.kind.starts_with("ord2") {
+        if k.entry != "item" || k.kind.starts_with("dens") || k.kind.starts_with("rev") || k.kind.starts_with("ord2")
+            || k.kind.ends_with("_refstr") || k.kind.ends_with("_pair")
+        {
             continue;
         }
         let its = &inputs[ki];
